@@ -92,6 +92,12 @@ def run_case(ctx, g, rng):
         ps = tuple(names.pop() for _ in range(rng.randint(0, 1)))
         us = tuple(ups.pop() for _ in range(rng.randint(0, 1)))
         recs.append(spec.Rec(p, u, ps, us, None))
+    if g % 23 == 11:
+        # a resolver for a registry-sized converter (hundreds of records, as the Bioregistry has): known prefixes are
+        # redirected and unknown ones answered 422 whatever the number of prefixes there is to list (seed C17-W)
+        n_bulk = rng.choice([101, 130, 300])
+        recs += [spec.Rec(f"zzbulk{i}", f"http://zz.bulk/{i}/", (), (), None) for i in range(n_bulk)]
+        S.counters[f"wl:registry-sized-converter:n{n_bulk}"] += 1
     # the converter may have a past: registered record by record, or grown through merges of records that have
     # canonical values of their own
     conv, how = gen.build(api, recs, d, rng)
